@@ -50,7 +50,7 @@ prop("C15",
      assumptions=["event order of ptrace stops is a model parameter (partial for the race part): the theorem covers every single event with every ptrace request answering ESRCH; the real race is sampled",
                   "exactness (C15_getstring_exact) is stated for C strings that lie entirely in readable memory below PATH_MAX; for strings that run into an unreadable page the returned prefix is proved to be a NUL-free prefix of the tracee's bytes (content), its maximal length there is covered by the differential"],
      not_covered="Go runtime faults outside the modelled functions are covered only by the hostile real runs; tracerHandler.Handle's decode path is C02's",
-     level_text="Theorems for every address space and every pointer: GetString never panics, returns at most PATH_MAX NUL-free bytes that are a prefix of the tracee's bytes at that address, and returns a C string lying in readable memory exactly (all of it, wherever the page boundaries fall); kernel-evaluated theorems on the regenerated tracer code that a tracee vanishing under any ptrace request (ESRCH) yields no verdict (never Runner Error / Disallowed Syscall) while a live set-regs failure still fails closed; differential on real memory and hostile real tracees",
+     level_text="Theorems for every address space and every pointer: GetString never panics, returns at most PATH_MAX NUL-free bytes that are a prefix of the tracee's bytes at that address, and returns a C string lying in readable memory exactly (all of it, wherever the page boundaries fall); kernel-evaluated theorems on the regenerated tracer code that a tracee vanishing under any ptrace request (ESRCH) yields no verdict (never Runner Error / Disallowed Syscall) while a live set-regs failure still fails closed; differential on real memory and hostile real tracees (incl. programs whose main process ends while other processes of the program still run: Run must return within the watchdog)",
      level_note="Trusted: Lean kernel; hand model of the string reader (differentially tied); kernel memory/ptrace assumptions; translator + Go-lite interpreter. Partial for real ptrace races (sampled)",
      technique="Lean 4 proofs (induction over the chunked read loop) + decide +kernel on regenerated Go-lite code + differential + hostile real runs")
 
@@ -74,7 +74,7 @@ prop("C04",
                   "capset is called with a single 12-byte CapUserData under a V3 header: the high word read by the kernel is whatever follows in memory (observed clean; noted as an observation)",
                   "option combinations the kernel refuses here (ptrace without a tracer, clone-into-cgroup without cgroup2 delegation) are covered by the model comparison only"],
      not_covered="LSMs, the capability bounding set",
-     level_text="Theorems for every option set (symbolic in all 29 option atoms) on the launch skeleton: filter loaded iff given and at most once, no_new_privs whenever requested or a filter is given, capability drop + locked NOROOT whenever credential or drop-caps is requested in every sync/ptrace/late-unshare combination and never otherwise, ids/session/cwd/host/domain/pivot iff requested, exec last, vfork sharing only without parent interaction; skeleton tied to the regenerated forkAndExecInChild by kernel-evaluated sample + exhaustive/sampled driver comparison each run; real launches with probe self-report",
+     level_text="Theorems for every option set (symbolic in all 29 option atoms) on the launch skeleton: filter loaded iff given and at most once, no_new_privs whenever requested or a filter is given, capability drop + locked NOROOT whenever credential or drop-caps is requested in every sync/ptrace/late-unshare combination and never otherwise, ids/session/cwd/host/domain/pivot iff requested, exec last, vfork sharing only without parent interaction; skeleton tied to the regenerated forkAndExecInChild by kernel-evaluated sample + exhaustive/sampled driver comparison each run; real launches with probe self-report (host/domain names of different lengths in every order, supplementary groups in user namespaces)",
      level_note="Trusted: Lean kernel; translator + Go-lite + abstract kernel; the skeleton<->regenerated-code tie is a comparison over option vectors (sampled in quick, 2^20 in thorough), not a proof; kernel security semantics assumed and sampled",
      technique="Lean 4 proofs over all option sets on a hand skeleton + tie to regenerated Go-lite code (decide +kernel sample, exhaustive driver sweep) + real launches")
 
@@ -83,7 +83,7 @@ prop("C06",
      assumptions=["launcher's side of the contract: every descriptor of the launching process outside the list is close-on-exec (Go opens everything so; the container init marks its stdio); pipe end and exec descriptor distinct",
                   "kernel dup3/fcntl/close semantics as modelled"],
      not_covered="the unbounded theorem is about the hand model; its agreement with the regenerated code is kernel-evaluated on the layout family and compared exhaustively for all lists of length <= 3 (quick) / <= 4 (thorough) with all placements on every run, not proved for every length; descriptors created concurrently by other goroutines are C17",
-     level_text="Theorem C06_shuffle_exact for descriptor lists of ANY length and any launcher table: after the shuffle and exec, descriptor k is the file listed at position k (closed for a marker), nothing else is open, the pipe and the exec descriptor still refer to their files at numbers above the list (helper lemmas: invariants of pass 1 and pass 2 by induction over the list, case analysis of the two moves). Tie: the regenerated forkAndExecInChild run by Go-lite on an abstract descriptor table agrees with the hand model and with the property oracle on a family of 20 adversarial layouts (kernel-evaluated), on every exhaustively enumerated small layout (driver, every run), and real launches with engineered layouts where the probe reports fstat identity of every descriptor and the Runner is deep-compared and restarted",
+     level_text="Theorem C06_shuffle_exact for descriptor lists of ANY length and any launcher table: after the shuffle and exec, descriptor k is the file listed at position k (closed for a marker), nothing else is open, the pipe and the exec descriptor still refer to their files at numbers above the list (helper lemmas: invariants of pass 1 and pass 2 by induction over the list, case analysis of the two moves). Tie: the regenerated forkAndExecInChild run by Go-lite on an abstract descriptor table agrees with the hand model and with the property oracle on a family of 20 adversarial layouts (kernel-evaluated), on every exhaustively enumerated small layout (driver, every run), and real launches with engineered layouts where the probe reports fstat identity of every descriptor and the Runner is deep-compared and restarted; container runs with 0..4 listed descriptors report the same table",
      level_note="Trusted: Lean kernel; hand model tied to the regenerated code by kernel evaluation and exhaustive small-scope comparison; abstract descriptor table (kernel dup3/fcntl/close) assumed",
      technique="Lean 4 proof by induction over the descriptor list (pass invariants) + decide +kernel on regenerated Go-lite code + exhaustive bounded enumeration + real launches")
 
@@ -104,7 +104,7 @@ prop("C01",
                   "native ABI = amd64 (arm/arm64 tables are not exercised here)",
                   "C01_fail_closed / build_groups / export_lossless / cleanTrace are kernel evaluations of the regenerated glue code on samples (the validator covers the end-to-end effect for every generated policy)"],
      not_covered="a generator-correctness theorem for all policies is not proved; instead each produced program is validated (translation validation with a proved validator)",
-     level_text="Kernel-checked soundness theorem of a translation validator: if validate(prog, policy) = true then for every seccomp_data (all 2^32 numbers x all arch tags x any argument words) the cBPF program returns exactly the policy's action (cell argument over the compared constants, representatives proved sufficient); every filter produced by the real Builder.Build for generated and shipped policies (incl. >255-name groups with long jumps, every default action) is validated on each run; glue (ToSeccompAction fail-closed, group order, sockFilter, cleanTrace) evaluated on regenerated code",
+     level_text="Kernel-checked soundness theorem of a translation validator: if validate(prog, policy) = true then for every seccomp_data (all 2^32 numbers x all arch tags x any argument words) the cBPF program returns exactly the policy's action (cell argument over the compared constants, representatives proved sufficient); every filter produced by the real Builder.Build for generated and shipped policies (incl. >255-name groups with long jumps, every default action) is validated on each run; glue (ToSeccompAction fail-closed, group order, sockFilter, cleanTrace) evaluated on regenerated code; cleanTrace against its specification on random overlapping lists; every filter compared with its validated copy after the next Build",
      level_note="Trusted: Lean kernel for the validator theorem; the Lean compiler for running the validator on concrete programs; cBPF machine model; third-party generator untrusted (validated)",
      technique="Lean 4 proved translation validator (cell/representative argument) applied to every real filter + decide +kernel on regenerated glue + VM cross-check",
      timeout={"quick": 1500, "thorough": 7200})
@@ -115,7 +115,7 @@ prop("C10",
      assumptions=["Go channel/goroutine scheduling beyond the modelled queues; gob framing is C19",
                   "requests fit the transport: a request whose gob encoding exceeds 32 KiB or an Open batch with more than 253 successes (SCM_MAX_FD) loses the environment; recorded as open known findings under C10/C14 (hypothesis 'request fits')"],
      not_covered="real-time promptness after transport loss is observed, not proved",
-     level_text="Kernel-evaluated exhaustive exploration of the protocol LTS for every operation kind x outcome class x sync mode under all interleavings of exit/cancel/kill/reply, lifted by induction to every finite history: after every call host and container are in sync with empty channels, every call gets exactly its own answer, a Ping afterwards always succeeds, transport loss never blocks the host; witness theorem for the pinned tree's desynchronisation; trace inclusion of real two-endpoint logs into the model",
+     level_text="Kernel-evaluated exhaustive exploration of the protocol LTS for every operation kind x outcome class x sync mode under all interleavings of exit/cancel/kill/reply, lifted by induction to every finite history: after every call host and container are in sync with empty channels, every call gets exactly its own answer, a Ping afterwards always succeeds, transport loss never blocks the host; witness theorem for the pinned tree's desynchronisation; trace inclusion of real two-endpoint logs into the model; the result class of every real Execve is the class its own parameters determine; after real loss of the transport (Destroy, init killed) every one of 3-8 further calls fails within 10 s",
      level_note="Trusted: Lean kernel; the protocol model is hand written and tied to the code by trace inclusion on sampled histories (not a proof of refinement)",
      technique="Lean 4 exhaustive LTS exploration (decide +kernel) + induction over histories + trace-inclusion correspondence")
 
@@ -126,7 +126,7 @@ prop("C11",
      assumptions=["real-time bounds (returns within 3 s) are observed by the harness, not proved; scheduler behaviour is a model parameter (all interleavings of the modelled steps)",
                   "SIGKILL of a process group terminates every member, stopped or not (kernel law)"],
      not_covered="namespace runner: Start returns only after the exec, so the group exists when the canceller can fire; covered by real runs only",
-     level_text="Exhaustive kernel-evaluated exploration of the cancellation race: under every interleaving the run ends, after the canceller's kill the program is never running again, Normal is only reported for a program that ended on its own before that kill; witness for the pinned tree's lost cancellation; tie of the repeated group kill to the regenerated trace loop; container cancellation terminates in sync in every interleaving; real cancellation sweeps in all three runners incl. the pinned early-cancel race, Destroy during in-flight calls",
+     level_text="Exhaustive kernel-evaluated exploration of the cancellation race: under every interleaving the run ends, after the canceller's kill the program is never running again, Normal is only reported for a program that ended on its own before that kill; witness for the pinned tree's lost cancellation; tie of the repeated group kill to the regenerated trace loop; container cancellation terminates in sync in every interleaving; real cancellation sweeps in all three runners incl. the pinned early-cancel race, cancelled container runs of programs whose descendants left the process group followed by a run that must be served, Destroy during in-flight calls",
      level_note="PARTIAL: theorem about code composed with assumed kernel/scheduler model; real-time promptness observed only. Trusted: Lean kernel, hand LTS, translator + Go-lite",
      technique="Lean 4 exhaustive LTS exploration (decide +kernel) + regenerated-code tie + real cancellation sweeps")
 
@@ -168,7 +168,7 @@ prop("C19",
      assumptions=["kernel SEQPACKET/SCM semantics as modelled; Go's ReadMsgUnix sets MSG_CMSG_CLOEXEC",
                   "open known findings: (1) a zero-length payload is not delivered transparently (net.UnixConn pads it with a dummy byte when control data is attached, and it reads as EOF otherwise); (2) gob layer: an oversize (unsent) message that was the first use of its type leaves the encoder ahead of the decoder and every later message undecodable — unreachable from the container package, whose first messages (ping/conf and their replies) are small"],
      not_covered="the gob framing is covered by the differential only (the model has no gob)",
-     level_text="Theorems over all histories and buffer sizes on the socket model: a receive hands over exactly one sent message (bytes, files in order, credentials) or rejects it without delivering data; with large enough buffers receives are the sends in FIFO order; more than SCM_MAX_FD descriptors are refused by the sender; no descriptor installed by the kernel stays open unaccounted (witness for the pinned tree's leak); differential on real socketpairs incl. 252/253/254 descriptors and buffer±1 payloads; gob layer around the 32 KiB cap",
+     level_text="Theorems over all histories and buffer sizes on the socket model: a receive hands over exactly one sent message (bytes, files in order, credentials) or rejects it without delivering data; with large enough buffers receives are the sends in FIFO order; more than SCM_MAX_FD descriptors are refused by the sender; no descriptor installed by the kernel stays open unaccounted (witness for the pinned tree's leak); differential on real socketpairs incl. 252/253/254 descriptors and buffer±1 payloads, receives with a full descriptor table; gob layer around the 32 KiB cap",
      level_note="Trusted: Lean kernel; hand model tied by differential; kernel socket semantics assumed. Two open known findings (zero-length payload, gob unsent-oversize first use)",
      technique="Lean 4 proofs by induction over operation histories + differential correspondence on real socketpairs")
 
@@ -179,7 +179,7 @@ prop("C13",
                   "'every writable mount' = the tmpfs mounts (default table); a caller-supplied read-write bind mount is host data and is not cleaned by Reset (documented reading)",
                   "kernel seal semantics as tabulated"],
      not_covered="kernel unlink/seal implementation",
-     level_text="Theorem for every mount table on the reset model (exactly the tmpfs targets are cleaned, in order, success only without failure) tied to the regenerated handleReset by kernel evaluation (filter, path join, order, error reply at first failure); DupToMemfd's create-copy-seal-rewind order with close on every failing path on regenerated code; every modifying operation denied under the compiled seal set; hostile trees + host-side inspection of the mounts, sealed memfd attacked through the descriptor, /proc/self/fd and from the exec'd program",
+     level_text="Theorem for every mount table on the reset model (exactly the tmpfs targets are cleaned, in order, success only without failure) tied to the regenerated handleReset by kernel evaluation (filter, path join, order, error reply at first failure); DupToMemfd's create-copy-seal-rewind order with close on every failing path on regenerated code; every modifying operation denied under the compiled seal set; hostile trees (incl. 5000 entries directly under a mount root) + host-side inspection of the mounts, DupToMemfd fed by readers using every licence of the io.Reader contract, sealed memfd attacked through the descriptor, /proc/self/fd and from the exec'd program",
      level_note="PARTIAL: proof about the model/regenerated glue + differential; kernel unlink/seal semantics assumed",
      technique="Lean 4 proof on the reset model + decide +kernel on regenerated Go-lite code + hostile-tree differential")
 
@@ -207,7 +207,7 @@ prop("C02",
                   "the tracee's /proc is procfs; procfs magic links (cwd/root/fd/N) are followed through their readlink text",
                   "syscalls the handler has no path rule for (symlink, link, mkdir, mknod, chown, truncate, ...) go to CheckSyscall(name): no path is presented, the property does not speak"],
      not_covered="errors inside the walk (ENOENT/ENOTDIR/EACCES in the middle): no object exists, the presented path is not constrained; 32-bit/x32 ABIs",
-     level_text="Theorems for every file system, directory, component list and link budget: the resolver model returns exactly the kernel walk's result (soundness, completeness, determinism of the walk), terminates within |todo| + budget*L + 1 iterations, and reports its cap only where the kernel has no resolution; every open that can write/create/truncate is classified write for every flag word; int(int32(reg)) equals the kernel's int dfd for every 64-bit register; the regenerated Handle passes the ABI's (dirfd, path) registers to a check of the right class for each of 26 syscalls and every dirfd site is an int32 chain (kernel-evaluated on regenerated code); regenerated resolver on concrete forests; differential against the kernel on random forests and under real traced runs",
+     level_text="Theorems for every file system, directory, component list and link budget: the resolver model returns exactly the kernel walk's result (soundness, completeness, determinism of the walk), terminates within |todo| + budget*L + 1 iterations, and reports its cap only where the kernel has no resolution; every open that can write/create/truncate is classified write for every flag word; int(int32(reg)) equals the kernel's int dfd for every 64-bit register; the regenerated Handle passes the ABI's (dirfd, path) registers to a check of the right class for each of 26 syscalls and every dirfd site is an int32 chain (kernel-evaluated on regenerated code); regenerated resolver on concrete forests; differential against the kernel on random forests (incl. histories that change the working directory) and under real traced runs",
      level_note="Trusted: Lean kernel; hand model of the loop tied to the regenerated function by kernel-evaluated cases and the per-run differential (not by a proof about the interpreter); kernel resolution semantics as specified by `Walk` and sampled against the real kernel. Three defects repaired (fix: commits)",
      technique="Lean 4 proofs (induction over fuel / over the Walk derivation) + decide +kernel on regenerated Go-lite code + differential against the kernel's resolution and real traced runs",
      timeout={"quick": 900, "thorough": 3600})
